@@ -5,6 +5,7 @@ import (
 	"encoding/json"
 	"fmt"
 	"runtime"
+	"slices"
 	"sync"
 	"testing"
 
@@ -137,6 +138,9 @@ func (b bits) stuckBits() (never1, never0 []string) {
 
 func genConfig(g *vkit.Rng, i int64, perConfig int) Case {
 	c := Case{Goroutines: 1 + g.Intn(64), Procs: 1 + g.Intn(16)}
+	if i%5 == 4 {
+		c.Procs = 1 + g.Intn(64)
+	}
 	switch i % 6 {
 	case 0: // also the very first configuration of the process: the generator's first use comes from several goroutines at once
 		c.Goroutines, c.Procs = 2+g.Intn(3), 2+g.Intn(15)
@@ -144,6 +148,9 @@ func genConfig(g *vkit.Rng, i int64, perConfig int) Case {
 		c.Goroutines = 1
 	case 2:
 		c.Goroutines, c.Procs = 64, 16
+		if i%12 == 2 { // beyond the usual: more runnable goroutines than any wait queue bound, more Ps than cores
+			c.Goroutines, c.Procs = 200+g.Intn(400), 17+g.Intn(48)
+		}
 	case 3:
 		c.Procs = 1
 	}
@@ -185,7 +192,7 @@ func TestCheck(t *testing.T) {
 		}
 		return
 	}
-	r.Rule("A case is a concurrency configuration (1-64 goroutines released by a barrier, draws per goroutine, GOMAXPROCS 1-16, per-goroutine yield masks), executed in its own subtest under the race detector. " +
+	r.Rule("A case is a concurrency configuration (1-64 goroutines, occasionally 200-600, released by a barrier; draws per goroutine; GOMAXPROCS 1-16, occasionally up to 64; per-goroutine yield masks), executed in its own subtest under the race detector. " +
 		"Oracle: every ID has version nibble 4 and variant bits 10 (checked on the raw bits and through the accessors); no ID repeats within the whole run; across the run each of the 122 remaining bit positions takes both values; any race-detector report while a configuration runs fails that configuration. " +
 		"Non-trivial: configurations with >= 2 goroutines and GOMAXPROCS >= 2. Distinct by configuration (hash).")
 	r.Assume("schedules are sampled, not enumerated; the race detector's happens-before analysis reports an unsynchronised access pair whenever both accesses execute in one run")
@@ -218,6 +225,49 @@ func TestCheck(t *testing.T) {
 			}
 		}
 	})
+
+	if r.Thorough() {
+		// a long run from one goroutine: 80 million draws, duplicates found exactly by sorting the 128-bit values
+		nLong := 80_000_000
+		r.Phase(fmt.Sprintf("A2: one goroutine, %d consecutive draws, exact duplicate search by sorting", nLong), func() {
+			r.Serial(func(w *vkit.W) {
+				ids := make([][2]uint64, nLong)
+				for i := range ids {
+					id := uu.RandomID()
+					ids[i] = [2]uint64{id.Higher, id.Lower}
+					if id.Higher>>12&0xf != 4 || id.Lower>>62 != 2 {
+						w.Fail(Case{Goroutines: 1, Draws: nLong, Procs: runtime.GOMAXPROCS(0), Yield: []uint64{0}}, "version", fmt.Sprintf("draw %d: %v", i, id))
+					}
+				}
+				slices.SortFunc(ids, func(a, b [2]uint64) int {
+					if a[0] != b[0] {
+						if a[0] < b[0] {
+							return -1
+						}
+						return 1
+					}
+					if a[1] < b[1] {
+						return -1
+					}
+					if a[1] > b[1] {
+						return 1
+					}
+					return 0
+				})
+				dups := 0
+				for i := 1; i < len(ids); i++ {
+					if ids[i] == ids[i-1] {
+						dups++
+						if dups == 1 {
+							w.Fail(Case{Goroutines: 1, Draws: nLong, Procs: runtime.GOMAXPROCS(0), Yield: []uint64{0}}, "duplicate", fmt.Sprintf("within %d consecutive draws the ID %v occurs more than once", nLong, uu.ID{Higher: ids[i][0], Lower: ids[i][1]}))
+						}
+					}
+				}
+				w.EvalRandom(vkit.HashU(uint64(nLong), 1), false)
+				w.ClassN("ids_drawn", int64(nLong))
+			})
+		})
+	}
 
 	r.Phase("B: rapid configurations (bit-field invariants with shrinking)", func() {
 		r.Rapid(t, "rapid-configs", 0, r.Pick(60, 1500), func(rt *rapid.T, w *vkit.W) vkit.RapidCase {
